@@ -80,6 +80,75 @@ let run (suite : string) (inp : Sx.t) : Sx.t =
       (match IntResponse.roundtrip (to_list to_z xs) with
        | None -> A "panic"
        | Some ys -> L [of_list of_z ys])
+  (* C16/C14 event-buffer message at capnp field level *)
+  | ("ev_ser" | "ev_de"), msg ->
+      let to_val x = match x with
+        | L [A "i"; i] -> EventBuf.VInt (to_z i)
+        | L [A "f"; f] -> EventBuf.VFloat (to_n f)
+        | L [A "s"; s] -> EventBuf.VStr (to_bytes s)
+        | A "null" -> EventBuf.VNull
+        | _ -> raise (Conv "anyval") in
+      let of_val v = match v with
+        | EventBuf.VInt i -> L [A "i"; of_z i]
+        | EventBuf.VFloat f -> L [A "f"; of_n f]
+        | EventBuf.VStr s -> L [A "s"; of_bytes s]
+        | EventBuf.VNull -> A "null" in
+      let to_nat x = nat_of_int (to_int x) and of_nat n = of_int (int_of_nat n) in
+      let to_pairs f x = to_list (fun p -> match p with L [i; v] -> (to_nat i, f v) | _ -> raise (Conv "pair")) x in
+      let of_pairs f l = of_list (fun (i, v) -> L [of_nat i; f v]) l in
+      let to_coldata x = match x with
+        | A "empty" -> EventBuf.CEmpty
+        | L [A "dense"; l] -> EventBuf.CDense (to_list to_n l)
+        | L [A "sparse"; l] -> EventBuf.CSparse (to_pairs to_n l)
+        | L [A "i64"; l] -> EventBuf.CI64 (to_list to_z l)
+        | L [A "sparse-i64"; l] -> EventBuf.CSparseI64 (to_pairs to_z l)
+        | L [A "string"; l] -> EventBuf.CString (to_list to_bytes l)
+        | L [A "mixed"; l] -> EventBuf.CMixed (to_list to_val l)
+        | _ -> raise (Conv "coldata") in
+      let of_coldata d = match d with
+        | EventBuf.CEmpty -> A "empty"
+        | EventBuf.CDense l -> L [A "dense"; of_list of_n l]
+        | EventBuf.CSparse l -> L [A "sparse"; of_pairs of_n l]
+        | EventBuf.CI64 l -> L [A "i64"; of_list of_z l]
+        | EventBuf.CSparseI64 l -> L [A "sparse-i64"; of_pairs of_z l]
+        | EventBuf.CString l -> L [A "string"; of_list of_bytes l]
+        | EventBuf.CMixed l -> L [A "mixed"; of_list of_val l] in
+      let to_data x = match x with
+        | A "empty" -> EventWire.MEmpty
+        | L [A "f64"; l] -> EventWire.MF64 (to_list to_n l)
+        | L [A "sparse-f64"; i; v] -> EventWire.MSparseF64 (to_list to_nat i, to_list to_n v)
+        | L [A "i64"; l] -> EventWire.MI64 (to_list to_z l)
+        | L [A "sparse-i64"; i; v] -> EventWire.MSparseI64 (to_list to_nat i, to_list to_z v)
+        | L [A "string"; l] -> EventWire.MString (to_list to_bytes l)
+        | L [A "mixed"; l] -> EventWire.MMixed (to_list to_val l)
+        | _ -> raise (Conv "data_msg") in
+      let of_data d = match d with
+        | EventWire.MEmpty -> A "empty"
+        | EventWire.MF64 l -> L [A "f64"; of_list of_n l]
+        | EventWire.MSparseF64 (i, v) -> L [A "sparse-f64"; of_list of_nat i; of_list of_n v]
+        | EventWire.MI64 l -> L [A "i64"; of_list of_z l]
+        | EventWire.MSparseI64 (i, v) -> L [A "sparse-i64"; of_list of_nat i; of_list of_z v]
+        | EventWire.MString l -> L [A "string"; of_list of_bytes l]
+        | EventWire.MMixed l -> L [A "mixed"; of_list of_val l] in
+      if suite = "ev_ser" then begin
+        let e = to_list (fun t -> match t with
+          | L [name; len; cols] ->
+              (to_bytes name, { EventWire.tb_len = to_n len;
+                                tb_cols = to_list (fun c -> match c with L [k; d] -> (to_bytes k, to_coldata d) | _ -> raise (Conv "col")) cols })
+          | _ -> raise (Conv "table")) msg in
+        of_list (fun t -> L [of_bytes t.EventWire.tm_name; of_n t.EventWire.tm_len;
+                             of_list (fun (k, d) -> L [of_bytes k; of_data d]) t.EventWire.tm_cols]) (EventWire.serialize e)
+      end else begin
+        let g = to_list (fun t -> match t with
+          | L [name; len; cols] ->
+              { EventWire.tm_len = to_n len; tm_name = to_bytes name;
+                tm_cols = to_list (fun c -> match c with L [k; d] -> (to_bytes k, to_data d) | _ -> raise (Conv "col")) cols }
+          | _ -> raise (Conv "table")) msg in
+        let by_key l = Stdlib.List.sort (fun (a, _) (b, _) -> compare (atom (of_bytes a)) (atom (of_bytes b))) l in
+        of_list (fun (name, t) -> L [of_bytes name; of_n t.EventWire.tb_len;
+                                     of_list (fun (k, d) -> L [of_bytes k; of_coldata d]) (by_key t.EventWire.tb_cols)])
+          (by_key (EventWire.deserialize g))
+      end
   | _ -> raise (Conv ("unknown suite or bad input shape: " ^ suite))
 
 let () = Loop.main run
